@@ -1035,6 +1035,10 @@ func (ex *Exec) next(st *State, fr *Frame, v *ssa.Next) {
 		}
 	}
 	ex.set(fr, v, &TupleV{E: []Value{okT, kv, vv}})
+	if m != nil {
+		// "map.next": one step of a range over a map (a0 = the map; ar0 = ok, ar1 = key, ar2 = value)
+		ex.event(st, &Event{Callee: "map.next", Args: []Value{m}, Results: []Value{okT, kv, vv}, Instr: v, Fn: fr.Fn, Kind: "mapnext"})
+	}
 }
 
 func (ex *Exec) selectOp(st *State, fr *Frame, v *ssa.Select) {
